@@ -199,12 +199,16 @@ fn any_state(index_answers: [u8; 4]) -> State {
 
 // One executor event against the ownership indexes: a created coin is listed under its owner, a consumed coin is removed, an
 // imported message is listed under its recipient, a consumed message is removed and recorded as spent, a failed relayed
-// transaction gets its status; nothing else is written.
+// transaction gets its status; nothing else is written - also when the balances or coins-to-spend indexer reports an
+// indexation error for the event (those are logged; the ownership indexes must still follow the chain).
 //@ harness kind=proof tier=quick prop=C36 timeout=600
 #[cfg(kani)]
 #[kani::proof]
 fn c36_one_event_ownership_indexes() {
-    let st = any_state([0; 4]);
+    // the balances / coins-to-spend indexers may each report an indexation (non-storage) error for the event: it is logged, and
+    // the ownership bookkeeping below must happen all the same
+    let (a0, a1): (u8, u8) = (kani::any(), kani::any()); kani::assume(a0 <= 1 && a1 <= 1);
+    let st = any_state([a0, a1, 0, 0]);
     let (oc0, om0, sm0) = (st.owned_coins.value.borrow().is_some(), st.owned_msgs.value.borrow().is_some(), st.spent_msgs.value.borrow().is_some());
     let ev = any_event();
     let (bf, cf, base): (bool, bool, u64) = (kani::any(), kani::any(), kani::any());
@@ -239,7 +243,8 @@ fn c36_one_event_ownership_indexes() {
         }
         // both indexers saw this event, balances first, each under its own flag
         let calls = *st.index_calls.borrow();
-        kani::assert(st.n_index_calls.get() == 2 && calls[0] == (0, ev.tag(), bf, 0) && calls[1] == (1, ev.tag(), cf, base), "[C36.index-balances.events.balances-and-coins-to-spend-indexers-each-get-the-event-under-their-own-flag]");
+        if a0 == 0 && a1 == 0 { kani::assert(st.n_index_calls.get() == 2 && calls[0] == (0, ev.tag(), bf, 0) && calls[1] == (1, ev.tag(), cf, base), "[C36.index-balances.events.balances-and-coins-to-spend-indexers-each-get-the-event-under-their-own-flag]"); }
+        kani::cover!(a0 == 1, "[C36.index-balances.events.cover-balance-indexation-error-is-logged-and-ownership-still-updated]");
     }
 }
 
